@@ -9,7 +9,7 @@ MAP = [
     (r"host/contracts/update\.go", "C01 C06 C17"), (r"persist/sqlite/accounts\.go", "C04 C11 C10"),
     (r"persist/sqlite/(volumes|sectors)\.go", "C02 C08 C03"), (r"persist/sqlite/registry\.go", "C20"),
     (r"persist/sqlite/settings\.go", "C18 C09 C16"), (r"persist/sqlite/metrics\.go", "C05 C04 C08 C16 C20"),
-    (r"persist/sqlite/(store|sql)\.go", "C09 C18 C01 C04"), (r"host/accounts/", "C04 C11 C09 C10"),
+    (r"persist/sqlite/(store|sql)\.go", "C09 C18 C01 C04"), (r"persist/sqlite/wallet\.go", "C16 C17"), (r"persist/sqlite/webhooks\.go", "C18 C09"), (r"persist/sqlite/consensus_wallet\.go", "C16 C17"), (r"host/accounts/", "C04 C11 C09 C10"),
     (r"host/contracts/(manager|contracts)\.go", "C03 C13 C14 C10 C18"), (r"host/contracts/lock\.go", "C15 C13"),
     (r"host/storage/", "C02 C08 C18"), (r"host/registry/", "C20"), (r"webhooks/", "C18 C09"),
     (r"index/", "C09 C16 C17"), (r"host/settings/", "C16 C09 C18"), (r"rhp/", "C07 C12 C14 C10"),
